@@ -283,7 +283,7 @@ pub fn run(ctx: &mut Ctx) {
     let ops = catalogue();
     let signers = key_pool(1, false);
     let recipients = recipient_pool(1);
-    let total = ctx.n(6_000, 150_000);
+    let total = ctx.n(6_000, 100_000);
     if ctx.shard == 0 {
         ctx.count_n("catalogue_size", ops.len() as u64);
         ctx.notes.push("excluded by documented precondition: Response::with_result on a failure / with_error on a success, expect_id, add_assertions(non-assertions), ur() before register_tags(); stack exhaustion beyond nesting depth 32".into());
